@@ -401,7 +401,69 @@ def templates(rng, w=None):
             xx = ["ashr", ww, ["bvv", dist & ((1 << w) - 1), w]]
             yy = ["and", xx, t]
             T += [["xor", q_, yy], ["xor", yy, q_]]
+    T += list(_minmax_near(r, x, y, bvs("c", w), w))
+    # rotate-shift-mask near misses: two different values, symbolic amounts, amounts not summing to the width
+    if w >= 2:
+        a = r.randrange(1, w)
+        A, B = g.bv(w, 1), bvs("c", w)
+        good = _rol(0xFFFF if w <= 32 else 0xFFFFFFFF, a, w)
+        T.append(["and", ["or", ["shl", A, ["bvv", a, w]], ["lshr", B, ["bvv", w - a, w]]], ["bvv", good, w]])
+        T.append(["and", ["or", ["shl", A, y], ["lshr", A, ["bvv", w - a, w]]], ["bvv", good, w]])
+        T.append(["and", ["or", ["shl", A, ["bvv", a, w]], ["lshr", A, ["sub", ["bvv", w & ((1 << w) - 1), w], y]]], ["bvv", good, w]])
+        T.append(["and", ["or", ["lshr", A, ["bvv", w - a, w]], ["shl", A, ["bvv", a, w]]], ["bvv", good, w]])
+        T.append(["and", ["or", ["shl", A, ["bvv", a, w]], ["ashr", A, ["bvv", w - a, w]]], ["bvv", good, w]])
+        T.append(["and", ["or", ["shl", A, ["bvv", a, w]], ["lshr", A, ["bvv", w - a, w]], B], ["bvv", good, w]])
+        T.append(["and", ["or", ["shl", A, ["bvv", a, w]], ["lshr", A, ["bvv", w - a, w]]], y])
+    # narrower values rotated inside 32/64 bits (the rule keys on the two amounts summing to 32 or 64, not on the width)
+    for N, wide in ((32, 40), (64, 72), (32, 64), (16, 32)):
+        a = r.randrange(1, N)
+        A = bvs("d", wide)
+        for msk in (_rol(0xFFFF, a, N), _rol(0xFFFFFFFF, a, N), _rol(0xFFFF, a, wide), r.getrandbits(wide)):
+            T.append(["and", ["or", ["shl", A, ["bvv", a, wide]], ["lshr", A, ["bvv", N - a, wide]]], ["bvv", msk & ((1 << wide) - 1), wide]])
     return [t for t in T if isinstance(t, list)]
+
+
+def _minmax_near(r, q, rr, z, w):
+    """the signed min/max idiom with exactly one piece changed (each change reaches a different exit of the matcher)"""
+    sh = ["bvv", (w - 1) & ((1 << w) - 1), w]
+
+    def idiom(s=None, t=None, u=None, v=None, ww=None, xx=None, yy=None, out=None, flip=False):
+        s0 = s or ["sub", q, rr]
+        t0 = t or ["xor", q, rr]
+        u0 = u or ["xor", s0, q]
+        v0 = v or ["and", u0, t0]
+        w0 = ww or ["xor", v0, s0]
+        x0 = xx or ["ashr", w0, sh]
+        y0 = yy or ["and", x0, t0]
+        return out(y0) if out else (["xor", y0, q] if flip else ["xor", q, y0])
+
+    yield idiom(s=["sub", rr, q])  # subtraction the other way round, u still against q
+    yield idiom(s=["add", q, rr])
+    yield idiom(s=["sub", q, z])
+    yield idiom(u=["xor", ["sub", q, rr], z])
+    yield idiom(u=["xor", ["sub", q, rr], rr])  # u against r with s = q - r
+    yield idiom(u=["or", ["sub", q, rr], q])
+    yield idiom(v=["and", ["xor", ["sub", q, rr], q], ["xor", q, z]])
+    yield idiom(v=["or", ["xor", ["sub", q, rr], q], ["xor", q, rr]])
+    yield idiom(v=["and", ["xor", ["sub", q, rr], q], ["xor", q, rr], z])
+    yield idiom(ww=["xor", ["and", ["xor", ["sub", q, rr], q], ["xor", q, rr]], ["sub", q, z]])
+    yield idiom(ww=["xor", ["and", ["xor", ["sub", q, rr], q], ["xor", q, rr]], ["sub", rr, q]])
+    yield idiom(ww=["or", ["and", ["xor", ["sub", q, rr], q], ["xor", q, rr]], ["sub", q, rr]])
+    base_w = ["xor", ["and", ["xor", ["sub", q, rr], q], ["xor", q, rr]], ["sub", q, rr]]
+    yield idiom(xx=["lshr", base_w, sh])
+    yield idiom(xx=["ashr", base_w, z])
+    yield idiom(xx=["shl", base_w, sh])
+    yield idiom(yy=["and", ["ashr", base_w, sh], ["xor", q, z]])
+    yield idiom(yy=["and", ["ashr", base_w, sh], ["xor", rr, q]])
+    yield idiom(yy=["and", ["ashr", base_w, sh], ["xor", q, rr], z])
+    yield idiom(yy=["or", ["ashr", base_w, sh], ["xor", q, rr]])
+    yield idiom(out=lambda y0: ["xor", z, y0])
+    yield idiom(out=lambda y0: ["xor", rr, y0])
+    yield idiom(out=lambda y0: ["xor", q, y0, z])
+    yield idiom(out=lambda y0: ["or", q, y0])
+    yield idiom(t=["xor", rr, q])
+    yield idiom(t=["xor", q, rr, z])
+    yield idiom(flip=True)
 
 
 def _rol(v, a, n):
